@@ -519,7 +519,8 @@ func (t *timeTicker) Stop() {
 func (t *timeTicker) Next(now time.Time) time.Time {
 	next := now.Add(t.every)
 	if t.align {
-		next = next.Round(t.every)
+		// The aligned ticker ticks on the multiples of every, rounding up would skip one.
+		next = next.Truncate(t.every)
 	}
 	return next
 }
